@@ -29,6 +29,7 @@
 //! Clock readings are compared relationally: the extent must run from a reading the
 //! scripted clock handed out during the (first) Start operation to one handed out during
 //! the terminal operation.
+#![cfg_attr(feature = "blocks", feature(stmt_expr_attributes, proc_macro_hygiene))]
 use std::future::Future;
 use std::pin::Pin;
 use std::sync::atomic::{AtomicBool, AtomicU64, AtomicUsize, Ordering::SeqCst};
@@ -633,7 +634,19 @@ fn plain_body(exit: &str) -> Option<u32> {
 }
 
 macro_rules! plain_fixtures {
-    ($sync:ident, $asyn:ident, #[$($attr:tt)*]) => {
+    ($sync:ident, $asyn:ident, $blk:ident, #[$($attr:tt)*]) => {
+        // the attribute on a sync block expression (the value of a `let`); `return` leaves the block
+        #[cfg(feature = "blocks")]
+        pub(crate) fn $blk(exit: &str) -> u32 {
+            let v: u32 = #[$($attr)*]
+            {
+                if let Some(v) = plain_body(exit) {
+                    return v;
+                }
+                2
+            };
+            v
+        }
         #[$($attr)*]
         pub(crate) fn $sync(exit: &str) -> u32 {
             if let Some(v) = plain_body(exit) {
@@ -655,7 +668,26 @@ macro_rules! plain_fixtures {
 
 
 macro_rules! result_fixtures {
-    ($sync:ident, $asyn:ident, #[$($attr:tt)*]) => {
+    ($sync:ident, $asyn:ident, $blk:ident, #[$($attr:tt)*]) => {
+        #[cfg(feature = "blocks")]
+        pub(crate) fn $blk(exit: &str) -> Result<u32, std::io::Error> {
+            let r: Result<u32, std::io::Error> = #[$($attr)*]
+            {
+                note_ids();
+                CUR_OP.store(2, SeqCst);
+                match exit {
+                    "early_ok" => return Ok(1),
+                    "early_err" => return Err(std::io::Error::other("failed")),
+                    "q_err" => {
+                        fail()?;
+                    }
+                    "panic" => std::panic::panic_any(Boom),
+                    _ => {}
+                }
+                Ok(2)
+            };
+            r
+        }
         #[$($attr)*]
         pub(crate) fn $sync(exit: &str) -> Result<u32, std::io::Error> {
             note_ids();
@@ -693,7 +725,21 @@ macro_rules! result_fixtures {
 
 
 macro_rules! guard_fixtures {
-    ($sync:ident, $asyn:ident, $g:ident, #[$($attr:tt)*]) => {
+    ($sync:ident, $asyn:ident, $blk:ident, $g:ident, #[$($attr:tt)*]) => {
+        // the attribute on a sync block in statement position
+        #[cfg(feature = "blocks")]
+        pub(crate) fn $blk(ops: &[Value], obs: &mut Obs) {
+            #[$($attr)*]
+            {
+                note_ids();
+                for _ in 0..2 {
+                    obs.en.push(Some($g.is_enabled()));
+                    obs.ret.push(None);
+                    obs.n.push(lock(&CALLS).len());
+                }
+                run_ops($g, ops, 2, None, obs);
+            }
+        }
         #[$($attr)*]
         pub(crate) fn $sync(ops: &[Value], obs: &mut Obs) {
             note_ids();
@@ -744,7 +790,26 @@ fn fail_m() -> Result<u32, Opaque> {
 }
 
 macro_rules! resultm_fixtures {
-    ($sync:ident, $asyn:ident, #[$($attr:tt)*]) => {
+    ($sync:ident, $asyn:ident, $blk:ident, #[$($attr:tt)*]) => {
+        #[cfg(feature = "blocks")]
+        pub(crate) fn $blk(exit: &str) -> Result<u32, Opaque> {
+            let r: Result<u32, Opaque> = #[$($attr)*]
+            {
+                note_ids();
+                CUR_OP.store(2, SeqCst);
+                match exit {
+                    "early_ok" => return Ok(1),
+                    "early_err" => return Err(Opaque(std::io::Error::other("mapped"))),
+                    "q_err" => {
+                        fail_m()?;
+                    }
+                    "panic" => std::panic::panic_any(Boom),
+                    _ => {}
+                }
+                Ok(2)
+            };
+            r
+        }
         #[$($attr)*]
         pub(crate) fn $sync(exit: &str) -> Result<u32, Opaque> {
             note_ids();
@@ -789,14 +854,14 @@ macro_rules! base_mod {
         #[allow(non_snake_case)]
         mod $m {
             use super::*;
-            plain_fixtures!(plain, plain_async, #[emit::$span(rt: RT, mdl: emit::Path::new_raw("m0"), $($extra)* "n0", a: 0)]);
-            plain_fixtures!(setup, setup_async, #[emit::$span(rt: RT, mdl: emit::Path::new_raw("m0"), setup: do_setup, $($extra)* "n0", a: 0)]);
-            result_fixtures!(result, result_async, #[emit::$span(rt: RT, mdl: emit::Path::new_raw("m0"), ok_lvl: emit::Level::Debug, err_lvl: emit::Level::Warn, $($extra)* "n0", a: 0)]);
-            result_fixtures!(result_o, result_o_async, #[emit::$span(rt: RT, mdl: emit::Path::new_raw("m0"), ok_lvl: emit::Level::Debug, $($extra)* "n0", a: 0)]);
-            result_fixtures!(result_e, result_e_async, #[emit::$span(rt: RT, mdl: emit::Path::new_raw("m0"), err_lvl: emit::Level::Warn, $($extra)* "n0", a: 0)]);
-            resultm_fixtures!(resultm, resultm_async, #[emit::$span(rt: RT, mdl: emit::Path::new_raw("m0"), ok_lvl: emit::Level::Debug, err_lvl: emit::Level::Warn, err: map_err, $($extra)* "n0", a: 0)]);
-            resultm_fixtures!(resultm_m, resultm_m_async, #[emit::$span(rt: RT, mdl: emit::Path::new_raw("m0"), err: map_err, $($extra)* "n0", a: 0)]);
-            guard_fixtures!(guard, guard_async, g, #[emit::$span(rt: RT, mdl: emit::Path::new_raw("m0"), guard: g, $($extra)* "n0", a: 0)]);
+            plain_fixtures!(plain, plain_async, plain_block, #[emit::$span(rt: RT, mdl: emit::Path::new_raw("m0"), $($extra)* "n0", a: 0)]);
+            plain_fixtures!(setup, setup_async, setup_block, #[emit::$span(rt: RT, mdl: emit::Path::new_raw("m0"), setup: do_setup, $($extra)* "n0", a: 0)]);
+            result_fixtures!(result, result_async, result_block, #[emit::$span(rt: RT, mdl: emit::Path::new_raw("m0"), ok_lvl: emit::Level::Debug, err_lvl: emit::Level::Warn, $($extra)* "n0", a: 0)]);
+            result_fixtures!(result_o, result_o_async, result_o_block, #[emit::$span(rt: RT, mdl: emit::Path::new_raw("m0"), ok_lvl: emit::Level::Debug, $($extra)* "n0", a: 0)]);
+            result_fixtures!(result_e, result_e_async, result_e_block, #[emit::$span(rt: RT, mdl: emit::Path::new_raw("m0"), err_lvl: emit::Level::Warn, $($extra)* "n0", a: 0)]);
+            resultm_fixtures!(resultm, resultm_async, resultm_block, #[emit::$span(rt: RT, mdl: emit::Path::new_raw("m0"), ok_lvl: emit::Level::Debug, err_lvl: emit::Level::Warn, err: map_err, $($extra)* "n0", a: 0)]);
+            resultm_fixtures!(resultm_m, resultm_m_async, resultm_m_block, #[emit::$span(rt: RT, mdl: emit::Path::new_raw("m0"), err: map_err, $($extra)* "n0", a: 0)]);
+            guard_fixtures!(guard, guard_async, guard_block, g, #[emit::$span(rt: RT, mdl: emit::Path::new_raw("m0"), guard: g, $($extra)* "n0", a: 0)]);
         }
     };
 }
@@ -838,8 +903,24 @@ fn run_newspan(case: &Value, asyn: bool, obs: &mut Obs) {
     }
 }
 
-/// Run the macro fixture for the case; `asyn` selects the async variant.
-fn run_macro(case: &Value, asyn: bool, obs: &mut Obs) {
+/// `m::f(args)` of the block-carrier fixture; without the `blocks` feature (stable toolchain)
+/// the block fixtures do not exist and the carrier is never selected.
+#[cfg(feature = "blocks")]
+macro_rules! blk {
+    ($e:expr) => {
+        $e
+    };
+}
+#[cfg(not(feature = "blocks"))]
+macro_rules! blk {
+    ($e:expr) => {
+        tool_error("this binary was built without the block carrier (feature `blocks`)")
+    };
+}
+
+/// Run the macro fixture for the case; `asyn` selects the async fn carrier, `block` the
+/// sync-block carrier (the attribute on a block expression).
+fn run_macro(case: &Value, asyn: bool, block: bool, obs: &mut Obs) {
     let ops = case["ops"].as_array().unwrap();
     let comp = ops[0]["a"].as_str().unwrap();
     let form = case["form"].as_str().unwrap();
@@ -861,8 +942,8 @@ fn run_macro(case: &Value, asyn: bool, obs: &mut Obs) {
             let want_ok = $exit == "ok" || $exit == "early_ok";
             // the function's own result must pass through unchanged
             macro_rules! res {
-                ($f:ident, $fa:ident) => {{
-                    let r = if asyn { block_on($m::$fa($exit)).is_ok() } else { $m::$f($exit).is_ok() };
+                ($f:ident, $fa:ident, $fb:ident) => {{
+                    let r = if block { blk!($m::$fb($exit).is_ok()) } else if asyn { block_on($m::$fa($exit)).is_ok() } else { $m::$f($exit).is_ok() };
                     if r != want_ok {
                         panic!("fixture result altered by the expansion");
                     }
@@ -870,23 +951,25 @@ fn run_macro(case: &Value, asyn: bool, obs: &mut Obs) {
             }
             match form {
                 "guard" => {
-                    if asyn {
+                    if block {
+                        blk!($m::guard_block(ops, obs))
+                    } else if asyn {
                         block_on($m::guard_async(ops, obs))
                     } else {
                         $m::guard(ops, obs)
                     }
                 }
                 "plain" => {
-                    let _ = if asyn { block_on($m::plain_async($exit)) } else { $m::plain($exit) };
+                    let _ = if block { blk!($m::plain_block($exit)) } else if asyn { block_on($m::plain_async($exit)) } else { $m::plain($exit) };
                 }
                 "setup" => {
-                    let _ = if asyn { block_on($m::setup_async($exit)) } else { $m::setup($exit) };
+                    let _ = if block { blk!($m::setup_block($exit)) } else if asyn { block_on($m::setup_async($exit)) } else { $m::setup($exit) };
                 }
-                "result" => res!(result, result_async),
-                "result_o" => res!(result_o, result_o_async),
-                "result_e" => res!(result_e, result_e_async),
-                "resultM" => res!(resultm, resultm_async),
-                "resultM_m" => res!(resultm_m, resultm_m_async),
+                "result" => res!(result, result_async, result_block),
+                "result_o" => res!(result_o, result_o_async, result_o_block),
+                "result_e" => res!(result_e, result_e_async, result_e_block),
+                "resultM" => res!(resultm, resultm_async, resultm_block),
+                "resultM_m" => res!(resultm_m, resultm_m_async, resultm_m_block),
                 f => tool_error(&format!("unknown form {f}")),
             }
         }};
@@ -993,9 +1076,11 @@ fn compare(case: &Value, obs: &Obs, is_macro: bool, drift: &mut Vec<Value>) -> V
         if c["name"] != e["name"] {
             diff.push(format!("name {} want {}", c["name"], e["name"]));
         }
-        // macro forms carry `a` as a context property: only visible through the emitter
-        // (a recording completion sees the span's own properties only)
-        if !(is_macro && !via_emitter && c["a"].is_null() && e["props"]["a"] == 0) && c["a"] != e["props"]["a"] {
+        // macro forms carry `a` as a context property: only visible through an emitter that is
+        // given the ambient context (a recording completion sees the span's own properties only,
+        // and so does the emitter behind completion::from_emitter, which gets the span as it is)
+        let own_props_only = !via_emitter || cid == "fromE";
+        if !(is_macro && own_props_only && c["a"].is_null() && e["props"]["a"] == 0) && c["a"] != e["props"]["a"] {
             diff.push(format!("props.a {} want {}", c["a"], e["props"]["a"]));
         }
         if c["m"] != e["props"]["m"] {
@@ -1071,6 +1156,7 @@ struct Tally {
     drift: Vec<Value>,
     drift_total: u64,
     typed: bool,
+    blocks_only: bool,
 }
 
 fn decide(case: &Value, rep: &mut Report, t: &mut Tally) {
@@ -1078,8 +1164,14 @@ fn decide(case: &Value, rep: &mut Report, t: &mut Tally) {
     let script: Vec<u64> = case["script"].as_array().unwrap().iter().map(|v| v.as_u64().unwrap()).collect();
     let form = case["form"].as_str().unwrap().to_string();
     let comp = case["ops"][0]["a"].as_str().unwrap();
-    // (label, executor, async)
+    // (label, executor, async)   executor 3 = attribute / new_span! fixture, 4 = attribute on a block
     let mut variants: Vec<(&str, u8, bool)> = Vec::new();
+    if t.blocks_only {
+        // this binary (built with the unstable features) runs the block carrier and nothing else
+        if case["carriers"].as_array().map_or(false, |c| c.iter().any(|x| x == "block")) {
+            variants.push(("macro-block", 4, false));
+        }
+    } else
     if form == "none" {
         variants.push(("guard", 0, false));
         if t.typed {
@@ -1099,7 +1191,8 @@ fn decide(case: &Value, rep: &mut Report, t: &mut Tally) {
             0 => run_erased(case, &mut obs),
             1 => run_typed(case, false, &mut obs),
             2 => run_typed(case, true, &mut obs),
-            _ => run_macro(case, asyn, &mut obs),
+            3 => run_macro(case, asyn, false, &mut obs),
+            _ => run_macro(case, false, true, &mut obs),
         });
         match r {
             Err(p) => {
@@ -1109,7 +1202,7 @@ fn decide(case: &Value, rep: &mut Report, t: &mut Tally) {
             Ok(()) => {
                 let nops = case["ops"].as_array().unwrap().len();
                 let hand = form == "guard" || form == "newspan";
-                if exec == 3 && ((form != "newspan" && nops < 2) || (!hand && nops == 2)) {
+                if exec >= 3 && ((form != "newspan" && nops < 2) || (!hand && nops == 2)) {
                     continue;
                 }
                 *t.by_form.entry(format!("{form}/{label}")).or_default() += 1;
@@ -1134,9 +1227,13 @@ fn main() {
     let args: Vec<String> = std::env::args().collect();
     let (cases, out) = (&args[1], &args[2]);
     let typed = args.get(3).map(|s| s == "typed").unwrap_or(false);
+    let blocks_only = args.get(3).map(|s| s == "blocks").unwrap_or(false);
+    if blocks_only && !cfg!(feature = "blocks") {
+        tool_error("mode `blocks` needs the binary built with --features blocks");
+    }
     quiet_panics();
     let mut rep = Report::new();
-    let mut t = Tally { by_form: Default::default(), completions: 0, probed: 0, drift: Vec::new(), drift_total: 0, typed };
+    let mut t = Tally { by_form: Default::default(), completions: 0, probed: 0, drift: Vec::new(), drift_total: 0, typed, blocks_only };
     for_each_case(cases, |_, case| {
         rep.cases += 1;
         if typed {
